@@ -228,6 +228,7 @@ class SimFS:
         self.trace = []
         self.in_call = False
         self.n_opens = 0
+        self.fds = {}  # fake descriptors handed out by the stand-in os.open
 
     # -- call windows ----------------------------------------------------
     def begin_call(self, fault=None):
@@ -292,13 +293,25 @@ class SimFS:
             raise ValueError(f"invalid mode: {mode!r}")
         self.n_opens += 1
         self._event(None, "open", 0)
+        no_trunc = False
+        if opener is not None:
+            # builtin open() semantics: the opener decides how the descriptor is obtained.  A descriptor made by
+            # the stand-in os.open carries its own flags (it may, for instance, lack O_TRUNC).
+            flags = {"r": os.O_RDONLY, "w": os.O_WRONLY | os.O_CREAT | os.O_TRUNC, "a": os.O_WRONLY | os.O_CREAT | os.O_APPEND,
+                     "x": os.O_WRONLY | os.O_CREAT | os.O_EXCL}[[c for c in mode if c in "rwax"][0]]
+            if "+" in mode:
+                flags = (flags & ~(os.O_RDONLY | os.O_WRONLY)) | os.O_RDWR
+            fd = opener(file, flags)
+            meta = self.fds.pop(fd, None)
+            if meta is not None:
+                no_trunc = True   # truncation (or not) already happened in the stand-in os.open
         exists = path in self.files
         if "r" in mode and not exists:
             raise FileNotFoundError(errno.ENOENT, "No such file or directory", path)
         if "x" in mode and exists:
             raise FileExistsError(errno.EEXIST, "File exists", path)
         h = SimHandle(self, path, mode)
-        if "w" in mode:
+        if "w" in mode and not no_trunc:
             self._event(h, "truncate", 0)
             self.files[path] = b""
         elif not exists:
@@ -364,6 +377,24 @@ class SimOS:
 
     def fsync(self, fd):
         return None
+
+    def open(self, path, flags, mode=0o777, **kw):
+        p = norm_path(path)
+        fs, real = self._fs, self._real
+        exists = p in fs.files
+        if not exists and not flags & real.O_CREAT:
+            raise FileNotFoundError(errno.ENOENT, "No such file or directory", p)
+        if exists and flags & real.O_CREAT and flags & real.O_EXCL:
+            raise FileExistsError(errno.EEXIST, "File exists", p)
+        if not exists or flags & real.O_TRUNC:
+            fs.files[p] = b""
+        fd = 2 * 10 ** 6 + len(fs.fds) + fs.n_opens
+        fs.fds[fd] = (p, flags)
+        return fd
+
+    def close(self, fd):
+        if self._fs.fds.pop(fd, None) is None:
+            return self._real.close(fd)
 
     def fspath(self, p):
         return self._real.fspath(p)
